@@ -247,6 +247,81 @@ impl<BS: BlockSizes> BlockModeDecClosure for UserBlocks<'_, BS> {
         user_blocks_call!(self, backend, B, decrypt_block, decrypt_par_blocks, decrypt_tail_blocks, decrypt_block_inplace, decrypt_par_blocks_inplace, decrypt_tail_blocks_inplace)
     }
 }
+/// executes a script (see `base::api::script_blocks`) on consecutive blocks inside one backend session
+pub struct UserScript<'a, BS: BlockSizes> {
+    pub blocks: &'a mut [Array<u8, BS>],
+    pub script: &'a [u8],
+    /// out: number of blocks the script processed (depends on the backend's width, which only the closure sees)
+    pub used: &'a mut usize,
+}
+impl<BS: BlockSizes> BlockSizeUser for UserScript<'_, BS> {
+    type BlockSize = BS;
+}
+macro_rules! user_script_call {
+    ($self:ident, $backend:ident, $B:ident, $block:ident, $par:ident, $tail:ident, $block_ip:ident, $par_ip:ident, $tail_ip:ident) => {{
+        let w = <$B::ParBlocksSize as cipher::typenum::Unsigned>::USIZE;
+        let mut rest = $self.blocks;
+        for &op in $self.script {
+            let n = base::api::script_op_blocks(op, w);
+            *$self.used += n;
+            let (cur, r) = rest.split_at_mut(n);
+            rest = r;
+            match op {
+                0 | 1 => {
+                    let (groups, _) = Array::<Array<u8, BS>, $B::ParBlocksSize>::slice_as_chunks_mut(cur);
+                    for g in groups {
+                        if op == 0 { $backend.$par(g.into()) } else { $backend.$par_ip(g) }
+                    }
+                }
+                2 => $backend.$block((&mut cur[0]).into()),
+                3 => $backend.$block_ip(&mut cur[0]),
+                _ => {
+                    if !cur.is_empty() {
+                        if op % 2 == 0 { $backend.$tail(cur.into()) } else { $backend.$tail_ip(cur) }
+                    }
+                }
+            }
+        }
+        let _ = rest;
+    }};
+}
+impl<BS: BlockSizes> BlockModeEncClosure for UserScript<'_, BS> {
+    fn call<B: BlockModeEncBackend<BlockSize = BS>>(self, backend: &mut B) {
+        user_script_call!(self, backend, B, encrypt_block, encrypt_par_blocks, encrypt_tail_blocks, encrypt_block_inplace, encrypt_par_blocks_inplace, encrypt_tail_blocks_inplace)
+    }
+}
+impl<BS: BlockSizes> BlockModeDecClosure for UserScript<'_, BS> {
+    fn call<B: BlockModeDecBackend<BlockSize = BS>>(self, backend: &mut B) {
+        user_script_call!(self, backend, B, decrypt_block, decrypt_par_blocks, decrypt_tail_blocks, decrypt_block_inplace, decrypt_par_blocks_inplace, decrypt_tail_blocks_inplace)
+    }
+}
+impl<BS: BlockSizes> StreamCipherClosure for UserScript<'_, BS> {
+    fn call<B: StreamCipherBackend<BlockSize = BS>>(self, backend: &mut B) {
+        let w = <B::ParBlocksSize as cipher::typenum::Unsigned>::USIZE;
+        let mut rest = self.blocks;
+        for &op in self.script {
+            let n = base::api::script_op_blocks(op, w);
+            *self.used += n;
+            let (cur, r) = rest.split_at_mut(n);
+            rest = r;
+            match op / 2 {
+                0 => {
+                    let (groups, _) = Array::<Array<u8, BS>, B::ParBlocksSize>::slice_as_chunks_mut(cur);
+                    for g in groups {
+                        backend.gen_par_ks_blocks(g);
+                    }
+                }
+                1 => backend.gen_ks_block(&mut cur[0]),
+                _ => {
+                    if !cur.is_empty() {
+                        backend.gen_tail_blocks(cur);
+                    }
+                }
+            }
+        }
+        let _ = rest;
+    }
+}
 /// keystream closures: modes 1, 2, 5, 6 as above (the stream backend has no `*_inplace` methods; 3 / 4 behave as 1 / 2)
 pub struct UserKeystream<'a, BS: BlockSizes> {
     pub blocks: &'a mut [Array<u8, BS>],
@@ -334,6 +409,12 @@ macro_rules! impl_block_mode {
                 let b = blocks_mut::<M::BlockSize>(buf);
                 self.0.encrypt_with_backend(UserBlocks { blocks: b, mode });
             }
+            fn many_script(&mut self, script: &[u8], buf: &mut [u8]) -> usize {
+                let b = blocks_mut::<M::BlockSize>(buf);
+                let mut used = 0;
+                self.0.encrypt_with_backend(UserScript { blocks: b, script, used: &mut used });
+                used
+            }
             fn iv_state(&self) -> Vec<u8> {
                 self.0.iv_state().to_vec()
             }
@@ -414,6 +495,12 @@ macro_rules! impl_block_mode {
             fn many_closure(&mut self, mode: u8, buf: &mut [u8]) {
                 let b = blocks_mut::<M::BlockSize>(buf);
                 self.0.decrypt_with_backend(UserBlocks { blocks: b, mode });
+            }
+            fn many_script(&mut self, script: &[u8], buf: &mut [u8]) -> usize {
+                let b = blocks_mut::<M::BlockSize>(buf);
+                let mut used = 0;
+                self.0.decrypt_with_backend(UserScript { blocks: b, script, used: &mut used });
+                used
             }
             fn iv_state(&self) -> Vec<u8> {
                 self.0.iv_state().to_vec()
@@ -580,6 +667,11 @@ macro_rules! impl_core {
             }
             fn write_blocks_closure(&mut self, mode: u8, out: &mut [u8]) {
                 self.0.process_with_backend(UserKeystream { blocks: blocks_mut::<T::BlockSize>(out), mode });
+            }
+            fn write_script(&mut self, script: &[u8], out: &mut [u8]) -> usize {
+                let mut used = 0;
+                self.0.process_with_backend(UserScript { blocks: blocks_mut::<T::BlockSize>(out), script, used: &mut used });
+                used
             }
             fn partial(self: Box<Self>, k: Kind, inp: &[u8], out: &mut [u8]) -> R {
                 match k {
